@@ -34,6 +34,7 @@ from __future__ import annotations
 import importlib
 import json
 import logging
+import os
 import random
 import re
 
@@ -459,7 +460,7 @@ def _trso_cases(rng, tier):
     out = _corpus("trso")
     out += _two_domain_cases(rng, {"quick": 700, "escalated": 700}.get(tier, 6000))
     out += [dict(c, src="trso") for c in c05.cases(rng, "quick" if tier == "escalated" else tier)
-            if c["kind"] == "identify" and "malformed" not in c]
+            if c["kind"] == "identify" and "malformed" not in c and c.get("stream") != "two_domain"]
     return out
 
 
@@ -515,9 +516,10 @@ def _trso_run(case):
             return r
         T.trso_line6 = rec6
     try:
-        est = T.identify_target_outcomes(graph, target_outcomes={V(y) for y in case["Y"]},
-                                         target_interventions={V(x) for x in case["X"]},
-                                         surrogate_outcomes=so, surrogate_interventions=si)
+        with c05.recursion_guard():
+            est = T.identify_target_outcomes(graph, target_outcomes={V(y) for y in case["Y"]},
+                                             target_interventions={V(x) for x in case["X"]},
+                                             surrogate_outcomes=so, surrogate_interventions=si)
         cls = "none" if est is None else "ok"
     except RecursionError:
         cls, est = "err", None
@@ -718,8 +720,13 @@ _SRC = {s["name"]: s for s in SOURCES}
 
 def cases(rng: random.Random, tier: str):
     out = []
+    # VERIF_C06_SOURCES=trso,...: run only the named sub-streams (a tool for mutation campaigns on ONE algorithm's source file, never
+    # the registered check); the sub-seeds of the other streams are drawn all the same, so a restricted run replays the full run's cases
+    only = [x for x in os.environ.get("VERIF_C06_SOURCES", "").split(",") if x]
     for src in SOURCES:
         sub = random.Random(rng.randrange(1 << 30))
+        if only and src["name"] not in only:
+            continue
         if tier != "escalated":
             out.extend(src["cases"](sub, tier))
             continue
